@@ -31,6 +31,7 @@ import common
 from common import enc, dec, err_kind
 from props.c04 import val, tag, exact, Unparsed, _var, _is_const, _flat_sum, _mem_obj, _memory
 from props.c04 import _fold as _fold_c04
+from props import c06hub as hub
 
 
 def _fold(node):
@@ -483,6 +484,8 @@ def _coef_obs(v):
 
 
 def impl(c):
+    if c["entry"] == "hub":
+        return hub.impl(c)
     import audiolazy.lazy_filters as lf
     from audiolazy.lazy_stream import MemoryLeakWarning
     srcs = [Src(d) for d in c.get("srcs", [])]
@@ -597,6 +600,8 @@ def _tree_req(c, t, n):
 
 
 def request(c):
+    if c["entry"] == "hub":
+        return hub.request(c)
     n = len(c["xs"]) + (len(c["second"]["xs"]) if c["entry"] == "call2" else 0)
     r = {"entry": c["entry"], "zero": exact(c["zero"]), "xs": [exact(x) for x in c["xs"]]}
     if c["entry"] == "call2":
@@ -678,6 +683,8 @@ def _ckey(c):
 
 
 def compare(c, io, drv):
+    if c["entry"] == "hub":
+        return hub.compare(c, io, drv)
     _TOL[0] = 1e-6 if floaty(c) else 0
     try:
         probs = _compare(c, io, drv)
@@ -954,6 +961,8 @@ def _model_positions(c, model):
 
 
 def nontrivial(c, io):
+    if c["entry"] == "hub":
+        return hub.nontrivial(c, io)
     return "err" in io or bool(io.get("out"))
 
 
@@ -961,6 +970,8 @@ def nontrivial(c, io):
 # classification (known findings)
 # ---------------------------------------------------------------------------------------------
 def classify(c, io, drv):
+    if c["entry"] == "hub":
+        return hub.classify(c, io, drv)
     _TOL[0] = 1e-6 if floaty(c) else 0
     try:
         return _classify(c, io, drv)
@@ -1309,6 +1320,9 @@ def generate(rng, tier, scale=1):
     max_len = 12 if quick else 40
     if scale == 1:
         cases.extend(_fixed_cases())
+        cases.extend(hub.fixed_cases())
+    for _ in range((700 if quick else 12000) * scale):
+        cases.append(hub.gen_case(rng, max_len))
     for _ in range((900 if quick else 18000) * scale):
         cases.append(_call_case(rng, max_len))
     for _ in range((900 if quick else 18000) * scale):
@@ -1365,6 +1379,8 @@ def _fixed_cases():
 # evidence histograms
 # ---------------------------------------------------------------------------------------------
 def tally(eng, c, io):
+    if c["entry"] == "hub":
+        return hub.tally(eng, c, io)
     eng.count("entry", c["entry"])
     eng.count("route", c.get("route", "expr"))
     eng.count("len_x", min(len(c["xs"]), 16))
@@ -1456,6 +1472,10 @@ def _early(c):
 
 
 def shrink(c):
+    if c["entry"] == "hub":
+        for cand in hub.shrink(c):
+            yield cand
+        return
     verdict = _VERDICT.get(_ckey(c))
     mark = bool(c.get("_noD13")) or (verdict is False) or (verdict is None and not _early(c))
     for cand in _shrink(c):
@@ -1562,6 +1582,10 @@ def _tree_shrinks(t, srcs):
 
 
 def neighbours(c):
+    if c["entry"] == "hub":
+        for cand in hub.neighbours(c):
+            yield cand
+        return
     base = dict(c, xs=c["xs"] if c["xs"] else ["1/1", "2/1", "-3/2"])
     yield base
     yield dict(base, xs=["1/1", "2/1", "-3/2", "5/1", "1/3", "-2/1"], zero="0/1", mem=None)
